@@ -135,6 +135,13 @@ Section Exact.
     - node. rewrite C_shared. reflexivity.
   Qed.
 
+  (* the keys of an index are IndexColumn nodes holding a plain string: whether or not Children() returns them,
+     they contribute nothing *)
+  Lemma C_index_keys (keys : list name) : flat_map C (map (fun k => QN KIndexCol (nameA (nstr k)) []) keys) = [].
+  Proof.
+    induction keys as [|k r IH]; cbn [map flat_map]; [reflexivity|]. rewrite IH, C_node. reflexivity.
+  Qed.
+
   Ltac fin :=
     let x := fresh "x" in
     intro x;
@@ -159,6 +166,9 @@ Section Exact.
   Definition P_assigns (l : massigns) := set_eq (flat_map C (ast_assigns l)) (items_assigns l).
   Definition P_sets (l : msets) := set_eq (flat_map C (ast_sets l)) (items_sets l).
   Definition P_mwhens (l : mmwhens) := set_eq (flat_map C (ast_mwhens l)) (items_mwhens l).
+  Definition P_colcons (l : mcolcons) := set_eq (flat_map C (ast_colcons l)) (items_colcons l).
+  Definition P_coldefs (l : mcoldefs) := set_eq (flat_map C (ast_coldefs l)) (items_coldefs l).
+  Definition P_tabcons (l : mtabcons) := set_eq (flat_map C (ast_tabcons l)) (items_tabcons l).
   Definition P_stmt (s : mstmt) := set_eq (C (ast_stmt s)) (items s).
 
   (* whichever FROM item the join list attaches to, its shared copy contributes nothing *)
@@ -183,11 +193,12 @@ Section Exact.
     (forall e, P_expr e) /\ (forall l, P_exprs l) /\ (forall l, P_whens l) /\ (forall o, P_opt o) /\
     (forall l, P_items l) /\ (forall t, P_tref t) /\ (forall l, P_trefs l) /\ (forall l, P_joins l) /\
     (forall l, P_ctes l) /\ (forall l, P_assigns l) /\ (forall l, P_sets l) /\ (forall l, P_mwhens l) /\
+    (forall l, P_colcons l) /\ (forall l, P_coldefs l) /\ (forall l, P_tabcons l) /\
     (forall s, P_stmt s).
   Proof.
     apply mgrammar_ind;
       unfold P_expr, P_exprs, P_whens, P_opt, P_items, P_tref, P_trefs, P_joins, P_ctes, P_assigns, P_sets,
-             P_mwhens, P_stmt; intros.
+             P_mwhens, P_colcons, P_coldefs, P_tabcons, P_stmt; intros.
     (* mexpr *)
     - (* MCol *) cbn [ast_expr items_expr]. rewrite C_node. cbn. unfold identA. cbn. rewrite name_col_ok. fin.
     - (* MStar *) cbn [ast_expr items_expr]. rewrite C_node. cbn. fin.
@@ -253,6 +264,18 @@ Section Exact.
       node. cbn. rewrite filter_col_ok_names, !map_map. cbn. fin.
     - cbn [ast_mwhens items_mwhens flat_map]. node.
       rewrite C_node. cbn. fin.
+    (* mcolcons *)
+    - cbn. fin.
+    - cbn [ast_colcons items_colcons flat_map]. rewrite C_node. cbn. fin.
+    - cbn [ast_colcons items_colcons flat_map]. node. cbn. fin.
+    - cbn [ast_colcons items_colcons flat_map]. node. cbn. fin.
+    (* mcoldefs *)
+    - cbn. fin.
+    - cbn [ast_coldefs items_coldefs flat_map]. node. cbn. fin.
+    (* mtabcons *)
+    - cbn. fin.
+    - cbn [ast_tabcons items_tabcons flat_map]. rewrite C_node. cbn. fin.
+    - cbn [ast_tabcons items_tabcons flat_map]. node. cbn. fin.
     (* mstmt *)
     - (* MSelect *) cbn [ast_stmt items]. node.
       rewrite C_wrap_with, C_ob_wrap.
@@ -271,6 +294,12 @@ Section Exact.
     - (* MDelete *) cbn [ast_stmt items]. node. rewrite C_wrap_with.
       cbn. rewrite names_of_one. cbn. rewrite (tok t). rewrite ?app_nil_r. fin.
     - (* MMerge *) cbn [ast_stmt items]. node. cbn. rewrite !app_nil_r. fin.
+    - (* MCreateView *) cbn [ast_stmt items]. node. cbn. rewrite !app_nil_r. fin.
+    - (* MCreateMView *) cbn [ast_stmt items]. node. cbn. rewrite !app_nil_r. fin.
+    - (* MCreateIndex *) cbn [ast_stmt items]. node. rewrite C_index_keys.
+      destruct (em KCreateIndex SColumns); cbn; rewrite ?app_nil_r; fin.
+    - (* MCreateTable *) cbn [ast_stmt items]. node. cbn. rewrite !app_nil_r. fin.
+    - (* MExplain *) cbn [ast_stmt items]. node. cbn. rewrite !app_nil_r. fin.
   Qed.
 
   Theorem items_exact : forall s, set_eq (C (ast_stmt s)) (items s).
@@ -432,6 +461,21 @@ Theorem extract_nodup em stmts :
   NoDup (map qname_string (extract_columns_qualified em stmts)).
 Proof.
   repeat split; try apply dedup_NoDup; apply kdedup_NoDup.
+Qed.
+
+(* ---- EXPLAIN q before /repo kept the query in the tree: nothing of q was extracted ---- *)
+Definition ex_explained : mstmt :=
+  MSelect CNil (ICons (MFunc (mkName "UPPER" eq_refl) (ECons (MCol "" (mkName "b" eq_refl)) ENil)) "" INil)
+          (TCons (TName (mkT "s1.users" eq_refl) "u") TNil) JNil ONone ENil ONone ENil.
+Theorem explain_names_dropped em :
+  exists q t c f,
+    In t (tables_written (MExplain q)) /\ In c (columns_written (MExplain q)) /\ In f (functions_written (MExplain q)) /\
+    extract_tables em [explain_pinned] = [] /\ extract_columns em [explain_pinned] = [] /\
+    extract_functions em [explain_pinned] = [].
+Proof.
+  exists ex_explained, "s1.users", "b", "UPPER".
+  repeat split; try (cbn; tauto);
+    unfold extract_tables, extract_columns, extract_functions, collect, explain_pinned; cbn; reflexivity.
 Qed.
 
 (* ---- cost: one visit per node (repaired form) vs. doubling per nested set operation (pinned form) ---- *)
